@@ -20,6 +20,19 @@ CHECKS = {
             'Trusted: kernel model (mc/kernel.py: sockets, selector, virtual clock), CPython 3.12.1 asyncio, the '
             'independent codec mc/wire.py.  Bounded by the alphabet and by depth R+1 (deviation bound for R=3).',
             'DESIGN.md section 3, C04'),
+    'C05': ('model_checking',
+            'explicit-state BFS over request-outcome histories (fingerprint de-duplication) + complete entry-point grid',
+            'Breadth-first search over histories of whole requests (success, success after k timeouts, exhausted, '
+            'rejected, transport errors, invalid answers, idle gaps, close(), new event loop), each rebuilt on fresh '
+            'real protocol objects on the real selector loop; after every history a probe request to a silent peer '
+            'must show exactly retries+1 identical transmissions spaced exactly one timeout and fail one timeout '
+            'after the last.  connect()/discover()/search_inverters() are run for every family, port and '
+            '(timeout, retries) of a grid against a silent kernel and a kernel that answers only the first request; '
+            'every request they issue must show the configured budget.',
+            'Trusted: kernel model, CPython 3.12.1 asyncio, request boundaries observed by wrapping '
+            'ProtocolCommand.execute from the harness.  Bounded by history depth (2 quick / 3 thorough); the '
+            'evidence reports in how many configurations the state fixpoint was reached below the bound.',
+            'DESIGN.md section 3, C05'),
 }
 
 NOT_BUILT = 'check not built yet (planned, see DESIGN.md section 3)'
